@@ -382,7 +382,8 @@ class Sim:
             _TrackedMultiRegImpl.registry = None
         if f.specials:
             raise ValueError("Could not lower all specials", f.specials)
-        for clock in sorted(self.clocks):
+        for clock in sorted(set(self.clocks) | set(f.sync.keys())):
+            # domains without a clock in `clocks` exist but never tick (e.g. output serialisers that are not observed)
             if clock not in f.clock_domains:
                 cd = ClockDomain(name=clock, reset_less=True)
                 f.clock_domains.append(cd)
